@@ -25,6 +25,24 @@ CLAIMS = {
         "outputs is a property of SHAKE256 (C12_full stated, not proved); OsRng freshness is observed only.",
    note=TB + "request size / method / error propagation are Gen constants extracted from the three randomised entry points; fault-injecting RngCore in the harness panics in infallible methods.",
    tech="Lean 4 proof over an RNG-script automaton + fault-injection differential execution + 257 one-bit draw variations per entry point"),
+ 'C03': dict(cat='proof', ref='DESIGN 5 C03',
+   text="Partial proof + differential execution. Proved in Lean for all inputs and all oracles: the external layer is exactly Algorithms 2 / 4 around the internal function - context guard, one 32-byte draw handed over "
+        "unchanged as rnd, M' = domain byte, one-byte length, ctx, then M or OID||PH(M) with the standard's OIDs and digest lengths (neither truncated nor padded) - and the signature depends on nothing but "
+        "(sk, message, context, mode, rnd). Not proved: sign_internal = Algorithm 7 line by line; that is decided on every run by byte-for-byte comparison with a Python transcription of FIPS 204 and with the Lean model.",
+   note=TB + "checks/ref/mldsa.py (FIPS 204 Algorithms 2, 4, 7, OIDs read from the standard) is the oracle for the unproved part.",
+   tech="Lean 4 proof of the external formatting layer over translated constants + differential execution against a FIPS 204 reference (all modes, key provenances, rate-edge message lengths)"),
+ 'C04': dict(cat='proof', ref='DESIGN 5 C04',
+   text="Partial proof + differential execution. Proved in Lean: the RNG-driven key generation is the seeded one on the 32 bytes drawn (or Err), ignores the rest of the generator, splits H(xi||k||l) into rho / rho' / K as "
+        "Algorithm 6 line 1, and both key structs share rho and tr. Not proved: the NTT-domain computation of t and the struct-to-bytes inversion equal Algorithm 6; decided on every run by byte comparison with a Python "
+        "transcription of Algorithm 6 through both entry points and struct-level comparison with the Lean model.",
+   note=TB + "checks/ref/mldsa.py (Algorithm 6) is the oracle for the unproved part.",
+   tech="Lean 4 proof of the RNG wrapper and seed split + differential execution against a FIPS 204 reference"),
+ 'C06': dict(cat='proof', ref='DESIGN 5 C06',
+   text="Lean theorems for arbitrary oracles: the formatted-message encoding is injective in (context, message) for pure mode and in (context, OID, digest) for pre-hash mode, pure and pre-hash encodings never coincide, "
+        "the three generated OIDs are pairwise distinct and of equal length; hence two different interpretations (message, context, mode/PH) of a signed string hash different inputs tr||M' unless they exhibit an explicit "
+        "pre-hash collision, and the verifier's mu is H(tr||M') of exactly the interpretation it is asked about.",
+   note=TB + "cross-acceptance therefore needs a SHAKE256 or pre-hash collision; the confusion family (all splits, all other modes, crafted mimicry) is executed on the crate on every run.",
+   tech="Lean 4 proof of encoding injectivity over translated OIDs/domain bytes + exhaustive alternative-interpretation runs per signed string"),
 }
 
 ORDER = ['C%02d' % i for i in range(1, 19)]
